@@ -86,4 +86,13 @@ def truthful (src : List UInt8) (srcAbs : Nat) (payloads : List (List UInt8)) : 
   | none => false
   | some fs => (cryptoOf fs).all fun c => sliceEq src srcAbs c.1 c.2
 
+/-- the first datagram that is larger than the frame budget of its packet: datagram `i` is held
+    against `budgets[min i last]` (a flight longer than the budget list repeats the last entry, as
+    planFor repeats the last InitialPackets entry); a budget ≤ 0 means "not known" -/
+def firstOversize (ps : List (List UInt8)) (budgets : List Int) : Option (Nat × Nat × Int) :=
+  (List.range ps.length).findSome? fun i =>
+    match budgets[min i (budgets.length - 1)]? with
+    | some b => if b > 0 && ((ps.getD i []).length : Int) > b then some (i, (ps.getD i []).length, b) else none
+    | none => none
+
 end Uquic.Spec.FramingMon
